@@ -86,7 +86,7 @@ def _work(args):
         if r.get("skip"):
             agg["skips"] += 1
         elif r.get("nt", True):
-            agg["nt"].add(k)
+            agg["nt"].add(khash(r["ntkey"]) if "ntkey" in r else k)
         o = r.get("out")
         if o is not None:
             agg["outs"][o] = agg["outs"].get(o, 0) + 1
